@@ -35,6 +35,9 @@ CONFIGS = {
     "san-asm": (SAN, True),
     "san-c64": (SAN + ["-DDISABLE_ASM"], False),
     "san-c32": (SAN + ["-DDISABLE_ASM", "-U__SIZEOF_INT128__", "-funsigned-char", "-fshort-enums"], False),
+    # the sanitized fuzz driver of C17 once more with the other compiler (g++ has its own ASan/UBSan run time, so this configuration is
+    # only used for stand-alone executables, never loaded into the Python process next to clang's run time)
+    "san-g64": (["-O1", "-g", "-fno-omit-frame-pointer", "-fsanitize=address,undefined", "-fno-sanitize-recover=undefined", "-DNDEBUG", "-DDISABLE_ASM"], False, "g++"),
     "instr": (["-O1", "-fno-inline", "-finstrument-functions"], True),
     "tsan": (["-O1", "-g", "-fsanitize=thread"], True),
     # mirrors of the embedded flags that matter for external references (C20 symbol audit)
@@ -165,7 +168,7 @@ def build(config, objects_only=False):
             if not objects_only:
                 link = [cxx, "-shared", "-o", so] + objs + [shim_o, "-Wl,-Bsymbolic,-z,relro,-z,now", "-Wl,-z,noexecstack"]
                 if "-fsanitize=address,undefined" in flags:
-                    link += ["-fsanitize=address,undefined", "-shared-libasan"]
+                    link += ["-fsanitize=address,undefined"] + (["-shared-libasan"] if compiler(config) != "g++" else [])
                 if "-fsanitize=thread" in flags:
                     link += ["-fsanitize=thread"]
                 _run(link, "harness")
